@@ -1480,3 +1480,48 @@ def sample_view(r):
         "event_log": (r.get("log") or [])[:30],
         "violations": r.get("violations"),
     }
+
+
+
+def describe(plan):
+    """Human-readable rendering of a (minimised) plan for the check's report."""
+    out = []
+    for ti, e in enumerate(plan.get("texts") or []):
+        if "raw" in e:
+            txt = e["raw"]
+        else:
+            prog = e["prog"]
+            if e.get("pulses"):
+                prog = dict(prog, pulses=("." if e["pulses"]["relative"] else "") + e["pulses"]["mod"])
+            try:
+                txt = progast.render(prog, progast.Layout(Tape(H(plan["run_seed"], "layout", ti)), e.get("noise", 0.0)))
+            except Exception as ex:
+                txt = "<unrenderable: %s>" % ex
+        extra = ""
+        if e.get("pulses"):
+            extra = "  [pulse module %s: %s]" % (e["pulses"]["mod"], e["pulses"]["kind"])
+        out.append("text %d%s:" % (ti, extra))
+        out.extend("    " + l for l in txt.split("\n")[:40])
+    if plan["prop"] == "C10":
+        out.append("override: %r   second override: %r (used by sequences %r)" % (plan.get("override"), plan.get("override2"), [i for i, x in enumerate(plan.get("seq_override") or []) if x]))
+        for i, sq in enumerate(plan.get("sequences") or []):
+            out.append("sequence %d: %s" % (i, " ".join(sq)))
+    elif plan.get("sweep"):
+        out.append("sweep: truncation at every offset, %d flips per offset" % plan["sweep"]["flips"])
+    else:
+        nid = 0
+        for j, op in enumerate(plan.get("ops") or []):
+            d = {k: v for k, v in op.items() if k not in ("op",) and v not in (None, {}, [])}
+            tag = ""
+            if op["op"] == "parse" or (op["op"] == "pass") or (op["op"] == "analyse" and op.get("name") == "run"):
+                if plan["prop"] == "C11":
+                    tag = " -> object %d" % nid
+                    nid += 1
+            out.append("op %d: %s %s%s" % (j, op["op"], json_compact(d), tag))
+    return "\n".join(out)
+
+
+def json_compact(d):
+    import json
+
+    return json.dumps(d, sort_keys=True, separators=(",", ":"))[:200]
